@@ -77,6 +77,7 @@ fn main() {
                 "c10" => ops_tiling::record(&pool, &mut w, seed, n),
                 "c10rerun" => ops_tiling::rerun(&pool, &mut w),
                 "c20" => ops_determinism::record(&pool, &mut w, seed, n),
+                "c09" => ops_simplify::record(&mut w, seed, n),
                 "c04rerun" => ops_boolops::rerun(&pool, &mut w),
                 k => { eprintln!("unknown record kind {k}"); std::process::exit(2); }
             }
